@@ -151,6 +151,31 @@ def _replay_get_binsize(inputs, ghost=None):
     return out
 
 
+@custom("cooler.util:rlencode")
+def _replay_rlencode(inputs):
+    from cooler.util import rlencode
+    a = conv(inputs["array"])
+    cs = conv(inputs.get("chunksize"))
+    out = {"inputs_used": {"array": a.tolist(), "chunksize": cs}}
+    if cs is not None and cs < 1:
+        out.update(violations=[], violates_contract=False, note="precondition chunksize >= 1 violated by the model")
+        return out
+    st, ln, vl = rlencode(a, cs)
+    exp_st = [k for k in range(len(a)) if k == 0 or a[k] != a[k - 1]]
+    exp_vl = [int(a[k]) for k in exp_st]
+    exp_ln = [(exp_st[j + 1] if j + 1 < len(exp_st) else len(a)) - exp_st[j] for j in range(len(exp_st))]
+    viol = []
+    if list(map(int, st)) != exp_st:
+        viol.append(f"starts {list(map(int, st))} != change points {exp_st}")
+    if list(map(int, vl)) != exp_vl:
+        viol.append(f"values {list(map(int, vl))} != {exp_vl}")
+    if list(map(int, ln)) != exp_ln:
+        viol.append(f"lengths {list(map(int, ln))} != {exp_ln}")
+    out.update(returned=repr((list(map(int, st)), list(map(int, ln)), list(map(int, vl)))), raised=None,
+               violations=viol, violates_contract=bool(viol))
+    return out
+
+
 def replay(target, inputs, ghost=None):
     if target in CUSTOM:
         import inspect
